@@ -22,6 +22,20 @@ class Unknown(Exception):
     pass
 
 
+class MutList(list):
+    """a mutable Vec / String under construction (identity matters: push mutates)"""
+    kind = "vec"
+
+    def __repr__(self):
+        return "%s%s" % (self.kind, list.__repr__(self))
+
+
+class Wire(int):
+    """an integer that came from untrusted input (e.g. a CBOR head length)"""
+    def __repr__(self):
+        return "wire(%d)" % int(self)
+
+
 class Return(Exception):
     def __init__(self, v):
         self.v = v
@@ -95,6 +109,7 @@ class Interp:
         self.effects = []
         self.steps = 0
         self.max_steps = max_steps
+        self.consts = {}
 
     # ---- environment ----
     def lookup(self, name):
@@ -175,6 +190,10 @@ class Interp:
 
     def _match_path(self, v, path, sub, p):
         last = path.split("::")[-1]
+        if path in self.consts and sub is None:
+            if v is OPAQUE:
+                raise Unknown("constant pattern %s against opaque value" % path)
+            return {} if v == self.consts[path] else None
         if v is OPAQUE:
             raise Unknown("pattern %s against opaque value" % path)
         if last in ("Some", "None") and isinstance(v, tuple) and v[0] in ("Some", "None"):
@@ -266,6 +285,8 @@ class Interp:
                 return p == "true"
             return OPAQUE
         last = p.split("::")[-1]
+        if p in self.consts:
+            return self.consts[p]
         if p in ("f64::EPSILON", "std::f64::EPSILON", "core::f64::EPSILON"):
             return 2.220446049250313e-16
         if p in ("f64::INFINITY",):
@@ -348,6 +369,8 @@ class Interp:
             if a is OPAQUE or b is OPAQUE:
                 return OPAQUE
             try:
+                if isinstance(a, tuple) and isinstance(b, tuple) and a[:1] == ("enum",) and b[:1] == ("enum",):
+                    a, b = a[:3], b[:3]
                 if op == "==":
                     return a == b
                 if op == "!=":
@@ -387,8 +410,25 @@ class Interp:
     def _store(self, target, v):
         if target["k"] == "path" and "::" not in target["p"]:
             self.assign(target["p"], v)
-        else:
-            self.effects.append(("store", target.get("s") or "?", v))
+            return
+        if target["k"] == "un" and target["op"] == "*":
+            return self._store(target["e"], v)
+        if target["k"] == "field":
+            s = target.get("s")
+            if s is not None and s in self.src_env and not callable(self.src_env[s]):
+                self.src_env[s] = v
+                return
+            base = self.eval(target["e"])
+            if isinstance(base, tuple) and base[0] == "enum" and isinstance(base[2], dict):
+                base[2][target["f"]] = v
+                return
+        if target["k"] == "index":
+            base = self.eval(target["e"])
+            i = self.eval(target["i"])
+            if isinstance(base, MutList) and isinstance(i, int) and 0 <= i < len(base):
+                base[i] = v
+                return
+        self.effects.append(("store", target.get("s") or "?", v))
 
     def e_assign(self, e):
         v = self.eval(e["b"])
@@ -494,7 +534,11 @@ class Interp:
             if r is not NotImplemented:
                 return r
         if name == "vec":
-            return OPAQUE
+            m = MutList()
+            if "repeat" not in e:
+                for a in e.get("args") or []:
+                    m.append(self.eval(a))
+            return m
         return OPAQUE
 
     def e_call(self, e):
@@ -507,8 +551,38 @@ class Interp:
             r = self.on_call("fn", fname or f.get("s"), e, args, None)
             if r is not NotImplemented:
                 return r
+        if fname and fname.endswith("::try_from") and len(args) == 1:
+            ty = fname.split("::")[-2]
+            rng = {"i64": (-2**63, 2**63 - 1), "u64": (0, 2**64 - 1), "i32": (-2**31, 2**31 - 1), "u32": (0, 2**32 - 1),
+                   "u8": (0, 255), "u16": (0, 65535), "usize": (0, 2**64 - 1), "isize": (-2**63, 2**63 - 1),
+                   "i128": (-2**127, 2**127 - 1), "u128": (0, 2**128 - 1), "Integer": (-2**64, 2**64 - 1)}.get(ty)
+            a = args[0]
+            if rng and isinstance(a, int) and not isinstance(a, bool):
+                return ("Ok", a) if rng[0] <= a <= rng[1] else ("Err", OPAQUE)
+            return OPAQUE
+        if fname in ("Vec::new", "String::new", "Vec::with_capacity", "String::with_capacity"):
+            m = MutList()
+            m.kind = "str" if fname.startswith("String") else "vec"
+            return m
         if fname and fname.split("::")[-1] in ("from", "into") and len(args) == 1:
             return args[0]
+        if fname == "Box::new" and len(args) == 1:
+            return args[0]
+        if fname in ("std::mem::take", "mem::take", "core::mem::take") and len(e["a"]) == 1:
+            tgt = e["a"][0]
+            while tgt["k"] == "ref":
+                tgt = tgt["e"]
+            old = self.eval(tgt)
+            new = MutList() if isinstance(old, MutList) else (("None",) if isinstance(old, tuple) and old[0] in ("Some", "None") else OPAQUE)
+            self._store(tgt, new)
+            return old
+        if fname in ("std::mem::replace", "mem::replace", "core::mem::replace") and len(e["a"]) == 2:
+            tgt = e["a"][0]
+            while tgt["k"] == "ref":
+                tgt = tgt["e"]
+            old = self.eval(tgt)
+            self._store(tgt, args[1])
+            return old
         if fname and fname.split("::")[-1][:1].isupper():
             return ("enum", fname, args)
         return OPAQUE
@@ -524,6 +598,142 @@ class Interp:
         # closures in arguments are not evaluated
         args = [self.eval(a) if a["k"] != "closure" else a for a in e["a"]]
         num = isinstance(recv, (int, float)) and not isinstance(recv, bool)
+        if m == "take" and isinstance(recv, tuple) and recv[0] in ("Some", "None") and e["r"]["k"] in ("field", "path"):
+            self._store(e["r"], ("None",))
+            return recv
+        if m == "clone" and (isinstance(recv, MutList) or (isinstance(recv, tuple) and recv[:1] == ("enum",))):
+            import copy
+            return copy.deepcopy(recv)
+        if isinstance(recv, tuple) and recv[:1] == ("list",):
+            recv_list = recv[1]
+        elif isinstance(recv, MutList):
+            recv_list = recv
+        else:
+            recv_list = None
+        if recv_list is not None and args and isinstance(args[0], dict) and args[0].get("k") == "closure":
+            cl = args[0]
+            if m in ("position", "any", "all", "find", "find_map", "filter", "map", "retain", "filter_map", "for_each", "flat_map"):
+                res = []
+                for idx, x in enumerate(list(recv_list)):
+                    r = self.call_closure(cl, [x])
+                    res.append((idx, x, r))
+                if m == "position":
+                    for idx, x, r in res:
+                        if self.truth(r):
+                            return ("Some", idx)
+                    return ("None",)
+                if m == "any":
+                    return any(self.truth(r) for _, _, r in res)
+                if m == "all":
+                    return all(self.truth(r) for _, _, r in res)
+                if m == "find":
+                    for idx, x, r in res:
+                        if self.truth(r):
+                            return ("Some", x)
+                    return ("None",)
+                if m == "find_map":
+                    for idx, x, r in res:
+                        if isinstance(r, tuple) and r[0] == "Some":
+                            return r
+                        if not (isinstance(r, tuple) and r[0] == "None"):
+                            raise Unknown("find_map closure result %r" % (r,))
+                    return ("None",)
+                if m == "filter":
+                    return ("list", [x for _, x, r in res if self.truth(r)])
+                if m == "map":
+                    return ("list", [r for _, _, r in res])
+                if m == "filter_map":
+                    return ("list", [r[1] for _, _, r in res if isinstance(r, tuple) and r[0] == "Some"])
+                if m == "retain":
+                    keep = [x for _, x, r in res if self.truth(r)]
+                    if isinstance(recv, MutList):
+                        recv[:] = keep
+                    return ("tuple", [])
+                if m == "for_each":
+                    return ("tuple", [])
+        if recv_list is not None:
+            if m in ("iter", "iter_mut", "into_iter", "cloned", "copied", "by_ref", "as_slice"):
+                return recv
+            if m == "enumerate":
+                return ("list", [("tuple", [i, x]) for i, x in enumerate(recv_list)])
+            if m == "rev":
+                return ("list", list(reversed(recv_list)))
+            if m in ("collect", "to_vec", "to_owned"):
+                ml = MutList(recv_list)
+                return ml
+            if m == "len" or m == "count":
+                return len(recv_list)
+            if m == "is_empty":
+                return len(recv_list) == 0
+            if m == "contains" and args:
+                return args[0] in recv_list
+            if m in ("first", "last", "next"):
+                if not recv_list:
+                    return ("None",)
+                return ("Some", recv_list[0] if m != "last" else recv_list[-1])
+            if m == "get" and args and isinstance(args[0], int):
+                return ("Some", recv_list[args[0]]) if 0 <= args[0] < len(recv_list) else ("None",)
+            if m == "skip" and args and isinstance(args[0], int):
+                return ("list", list(recv_list)[args[0]:])
+            if m == "take" and args and isinstance(args[0], int):
+                return ("list", list(recv_list)[:args[0]])
+        if isinstance(recv, MutList):
+            if m == "remove" and args and isinstance(args[0], int):
+                if not (0 <= args[0] < len(recv)):
+                    self.effects.append(("panic", "remove out of range"))
+                    raise Unknown("Vec::remove index out of range (panic)")
+                return recv.pop(args[0])
+            if m == "pop":
+                return ("Some", recv.pop()) if recv else ("None",)
+            if m == "truncate" and args and isinstance(args[0], int):
+                del recv[args[0]:]
+                return ("tuple", [])
+            if m == "clear":
+                del recv[:]
+                return ("tuple", [])
+            if m == "insert" and len(args) == 2 and isinstance(args[0], int):
+                recv.insert(args[0], args[1])
+                return ("tuple", [])
+            if m == "drain":
+                out = list(recv)
+                del recv[:]
+                return ("list", out)
+            if m == "push":
+                recv.append(args[0])
+                return ("tuple", [])
+            if m in ("extend_from_slice", "push_str", "extend", "append"):
+                a0 = args[0]
+                if isinstance(a0, tuple) and a0[:1] == ("list",):
+                    a0 = a0[1]
+                if isinstance(a0, list):
+                    recv.extend(a0)
+                    if m == "append" and isinstance(a0, MutList):
+                        del a0[:]
+                else:
+                    recv.append(a0)
+                return ("tuple", [])
+            if m == "len":
+                return len(recv)
+            if m == "is_empty":
+                return len(recv) == 0
+            if m in ("iter", "as_slice", "as_str", "as_bytes", "into_iter"):
+                return recv
+        if m == "map_err" and isinstance(recv, tuple) and recv[0] in ("Ok", "Err"):
+            if recv[0] == "Ok":
+                return recv
+            if args and isinstance(args[0], dict):
+                return ("Err", self.call_closure(args[0], [recv[1]]))
+            return ("Err", OPAQUE)
+        if m == "ok_or_else" and isinstance(recv, tuple) and recv[0] in ("Some", "None"):
+            if recv[0] == "Some":
+                return ("Ok", recv[1])
+            if args and isinstance(args[0], dict):
+                return ("Err", self.call_closure(args[0], []))
+            return ("Err", OPAQUE)
+        if m == "ok" and isinstance(recv, tuple) and recv[0] in ("Ok", "Err"):
+            return ("Some", recv[1]) if recv[0] == "Ok" else ("None",)
+        if m == "err" and isinstance(recv, tuple) and recv[0] in ("Ok", "Err"):
+            return ("Some", recv[1]) if recv[0] == "Err" else ("None",)
         if m in ("clone", "as_ref", "as_mut", "borrow", "to_owned", "into", "as_deref", "by_ref", "iter", "copied", "cloned"):
             return recv
         if m == "abs" and num:
@@ -578,9 +788,25 @@ class Interp:
     def e_closure(self, e):
         return e
 
+    def e_range(self, e):
+        a = self.eval(e["a"]) if e.get("a") else None
+        b = self.eval(e["b"]) if e.get("b") else None
+        if isinstance(a, int) and isinstance(b, int) and not isinstance(a, bool):
+            hi = b + 1 if e.get("incl") else b
+            if hi - a > 256:
+                raise Unknown("range too long")
+            return ("list", list(range(a, hi)))
+        return OPAQUE
+
     def e_index(self, e):
-        self.eval(e["e"])
-        self.eval(e["i"])
+        b = self.eval(e["e"])
+        i = self.eval(e["i"])
+        if isinstance(b, tuple) and b[:1] == ("list",):
+            b = b[1]
+        if isinstance(b, list) and isinstance(i, int) and not isinstance(i, bool):
+            if 0 <= i < len(b):
+                return b[i]
+            raise Unknown("index out of range (panic)")
         return OPAQUE
 
     def e_while(self, e):
@@ -612,6 +838,8 @@ class Interp:
 
     def e_for(self, e):
         it = self.eval(e["e"])
+        if isinstance(it, MutList):
+            it = ("list", list(it))
         if isinstance(it, tuple) and it[0] == "list":
             for x in it[1]:
                 self.scopes.append({})
